@@ -164,6 +164,8 @@ def compare_groups(cases):
                     c.result.world.tag += " (equal after re-running to idle)"
     return cases
 
+EXTRA_MODULES = {"C02": ["TB.Props.C02run"], "C16": ["TB.Props.C16run"]}
+
 PROPS = {
     "C01": dict(module="TB.Props.C01", theorems=["C01_write_sound", "C01_gate", "C01_writer_cursor", "C01_run"], clauses=["c01-"], worlds=lambda t, s: worlds_default(t, s, "c01", 400, 8000, tweak_threads)),
     "C02": dict(module="TB.Props.C02", theorems=["C02_search_sound", "C02_search_complete", "C02_piece"], clauses=["c02-"], worlds=lambda t, s: worlds_default(t, s, "c02", 400, 8000, tweak_threads)),
@@ -207,6 +209,9 @@ def run(pid, tier, seed, replay=None, props=None):
         cfg["module"], " && lake env leanchecker " + cfg["module"] if tier == "thorough" else "")
     known = E.load_known()
     E.proof_stage(res, cfg["module"], cfg["theorems"], tier)
+    for extra in EXTRA_MODULES.get(pid, []):
+        # further theorem files of the same property (run-level statements proved later)
+        E.proof_stage(res, extra, [], tier)
     ok, out = C.harness_build(with_bin=bool(cfg.get("with_bin")))
     if not ok:
         p = E.write_replay(pid, "harness-build", {"what": "the harness does not build against /repo's working tree", "output": out[-4000:]})
